@@ -70,7 +70,7 @@ pub const NEAR: &[&str] = &["goto depth 1", "gone", "go2 depth 1", "positions st
 /// Searches that finish long before their time budget is used (and one that uses it up): what a
 /// search leaves running when it returns early must not keep the process alive after its input
 /// ends. Indexed after NEAR.
-pub const TIMED: &[&str] = &["go depth 1 movetime 100000", "go depth 2 wtime 600000 btime 600000 winc 0 binc 0", "go movetime 25"];
+pub const TIMED: &[&str] = &["go depth 1 movetime 100000", "go depth 2 wtime 600000 btime 600000 winc 0 binc 0", "go movetime 25", "go depth 1 movetime 18446744073709551615"];
 
 pub fn sym(i: usize) -> &'static str {
     let mut i = i;
